@@ -576,10 +576,19 @@ func (c *Context) onKilled(message *vivid.OnKilled, behavior vivid.Behavior) {
 
 	v := chain.NewVoid()
 	if c.zombie {
+		if !message.Ref.Equals(c.ref) {
+			// 僵尸仅由针对自身的 Kill（或父级终止时的 Kill）释放；其子节点、被监听者的死亡通知不应将其释放，
+			// 否则每收到一条 OnKilled 都会再次向父级与监听者通告自身死亡（相互监听的僵尸之间会无休止地互相通告）
+			delete(c.children, message.Ref.GetPath())
+			return
+		}
 		handler.shouldContinue = true
 		handler.prepareSelfKilledMessage()
 		handler.restarting = false
 		handler.cleanupIfNotRestarting()
+		// 释放后即为普通的已终止 Actor：后续消息进入死信，重复的 Kill 不会再次通告
+		c.zombie = false
+		atomic.StoreInt32(&c.state, killed)
 		return
 	}
 
